@@ -118,6 +118,7 @@ type Tier struct {
 	MaxDecisions  int              `json:"max_decisions"`
 	Skip          bool             `json:"skip"`
 	WallS         int              `json:"wall_s"`
+	Sweep         map[string][]int64 `json:"sweep"`
 }
 
 type Group struct {
